@@ -437,7 +437,7 @@ func checkRequestInfo(expected, actual *conformancev1.ConformancePayload_Request
 		} else if actual != nil && actual.TimeoutMs != nil {
 			errs = append(errs, fmt.Errorf("server echoed back a timeout (%d ms) but none was expected", actual.GetTimeoutMs()))
 		}
-		if len(expected.GetConnectGetInfo().GetQueryParams()) > 0 && len(actual.GetConnectGetInfo().GetQueryParams()) > 0 {
+		if len(expected.GetConnectGetInfo().GetQueryParams()) > 0 {
 			errs = append(errs, checkHeaders("request query params", expected.GetConnectGetInfo().GetQueryParams(), actual.GetConnectGetInfo().GetQueryParams())...)
 		}
 	}
